@@ -784,8 +784,7 @@ class Inliner(object):
                             isinstance(a, ast.Starred) for a in node.args):
                     return node
                 expr = K.expr_of_function(raw)
-                if expr is None or isinstance(expr, ast.IfExp) and \
-                        len(K._fn_body(raw)) > 1:
+                if expr is None:
                     return node
                 if any(isinstance(n, (ast.Yield, ast.Await, ast.Lambda,
                                       ast.NamedExpr))
@@ -943,6 +942,154 @@ class Inliner(object):
         return expanded + tail
 
 
+def _attr_chain(expr):
+    """Root name of a pure attribute chain a.b.c, else None."""
+    cur = expr
+    depth = 0
+    while isinstance(cur, ast.Attribute):
+        cur = cur.value
+        depth += 1
+    if depth and isinstance(cur, ast.Name):
+        return cur.id
+    return None
+
+
+def _volatile_attrs(module):
+    """Attribute names assigned somewhere in the module outside __init__:
+    a snapshot of such a field may be out of date after any call."""
+    cached = getattr(module, '_volatile_attrs', None)
+    if cached is not None:
+        return cached
+    out = set()
+
+    def visit(node, in_init):
+        for child in ast.iter_child_nodes(node):
+            if isinstance(child, (ast.FunctionDef, ast.AsyncFunctionDef)):
+                visit(child, child.name == '__init__')
+                continue
+            if isinstance(child, ast.Attribute) and isinstance(
+                    child.ctx, (ast.Store, ast.Del)) and not in_init:
+                out.add(child.attr)
+            visit(child, in_init)
+    visit(module.tree, False)
+    try:
+        module._volatile_attrs = out
+    except AttributeError:
+        pass
+    return out
+
+
+def fold_attribute_aliases(fdef, volatile=()):
+    """x = self.a.b (x bound once, self.a.b never assigned in the function)
+    makes x another name for that attribute: every occurrence of x is
+    replaced by the attribute, also as the base of a store or delete
+    (`apps = self.apps; del apps[k]` -> `del self.apps[k]`)."""
+    params = set(a.arg for a in fdef.args.posonlyargs + fdef.args.args +
+                 fdef.args.kwonlyargs)
+    counts = {}
+    values = {}
+    stored_paths = set()
+    rebound = set()
+
+    def walk(node):
+        for child in ast.iter_child_nodes(node):
+            if isinstance(child, (ast.FunctionDef, ast.AsyncFunctionDef,
+                                  ast.ClassDef, ast.Lambda)):
+                # a closure may read the alias: leave such names alone
+                for sub in ast.walk(child):
+                    if isinstance(sub, ast.Name):
+                        rebound.add(sub.id)
+                continue
+            yield child
+            for sub in walk(child):
+                yield sub
+    for node in walk(fdef):
+        if isinstance(node, ast.Assign):
+            for tgt in node.targets:
+                if isinstance(tgt, ast.Name) and len(node.targets) == 1:
+                    counts[tgt.id] = counts.get(tgt.id, 0) + 1
+                    values[tgt.id] = node.value
+                else:
+                    for leaf in ast.walk(tgt):
+                        if isinstance(leaf, ast.Name) and \
+                                isinstance(leaf.ctx, ast.Store):
+                            rebound.add(leaf.id)
+        elif isinstance(node, (ast.AugAssign, ast.AnnAssign)):
+            for leaf in ast.walk(node.target):
+                if isinstance(leaf, ast.Name) and isinstance(leaf.ctx,
+                                                             ast.Store):
+                    rebound.add(leaf.id)
+        elif isinstance(node, (ast.For, ast.AsyncFor, ast.comprehension)):
+            for leaf in ast.walk(node.target):
+                if isinstance(leaf, ast.Name):
+                    rebound.add(leaf.id)
+        elif isinstance(node, (ast.With, ast.AsyncWith)):
+            for item in node.items:
+                if item.optional_vars is not None:
+                    for leaf in ast.walk(item.optional_vars):
+                        if isinstance(leaf, ast.Name):
+                            rebound.add(leaf.id)
+        elif isinstance(node, ast.ExceptHandler) and node.name:
+            rebound.add(node.name)
+        elif isinstance(node, (ast.Global, ast.Nonlocal)):
+            rebound.update(node.names)
+        if isinstance(node, ast.Attribute) and isinstance(
+                node.ctx, (ast.Store, ast.Del)):
+            stored_paths.add(ast.unparse(node))
+    aliases = {}
+    for name, cnt in counts.items():
+        if cnt != 1 or name in rebound or name in params:
+            continue
+        val = values[name]
+        root = _attr_chain(val)
+        if root is None or not (root == 'self' or root in params):
+            continue
+        if any(isinstance(sub, ast.Attribute) and sub.attr in volatile
+               for sub in ast.walk(val)):
+            continue        # the field may be re-assigned by a callee
+        text = ast.unparse(val)
+        # the attribute (or a prefix of it) must not be re-bound here
+        if any(text == p or text.startswith(p + '.') for p in stored_paths):
+            continue
+        if root in rebound or counts.get(root):
+            continue
+        aliases[name] = val
+    if not aliases:
+        return fdef
+
+    class Fold(ast.NodeTransformer):
+        def visit_Name(self, node):
+            if node.id in aliases and isinstance(node.ctx, ast.Load):
+                new = copy.deepcopy(aliases[node.id])
+                for sub in ast.walk(new):
+                    ast.copy_location(sub, node)
+                return new
+            return node
+
+        def visit_Assign(self, node):
+            # keep the binding itself
+            if len(node.targets) == 1 and isinstance(
+                    node.targets[0], ast.Name) and \
+                    node.targets[0].id in aliases:
+                return node
+            return self.generic_visit(node)
+
+        def visit_FunctionDef(self, node):
+            if node is fdef:
+                return self.generic_visit(node)
+            return node
+
+        visit_AsyncFunctionDef = visit_ClassDef = visit_Lambda = \
+            visit_FunctionDef
+    Fold().visit(fdef)
+    for node in ast.walk(fdef):
+        for child in ast.iter_child_nodes(node):
+            if hasattr(child, '_inline_body'):
+                child._inline_body = [Fold().visit(st)
+                                      for st in child._inline_body]
+    return fdef
+
+
 def inline_function(index, func, resolver):
     """Deep copy of func.raw with private helpers inlined; returns
     (new FunctionDef, [inlined callee names])."""
@@ -955,5 +1102,6 @@ def inline_function(index, func, resolver):
                     if isinstance(n, ast.Name)) | set(
                         a.arg for a in func.raw.args.args)
     node.body = inl.process(func, node.body, [func.fq])
+    node = fold_attribute_aliases(node, _volatile_attrs(func.module))
     ast.fix_missing_locations(node)
     return node, inl.inlined
